@@ -57,11 +57,15 @@ PROGSETS = {
                     r2=P([I('fset', 'f1', 5, c=1), I('yn', v=2), I('fset', 'f1', 6)])),
     'clock': dict(r1=P([I('yn', v=8), I('play', 'r2'), I('yn', v=8), I('stop', 'r2'), I('yn', v=4)]),
                   r2=P([I('yn', v=2), I('yn', v=2), I('yar', v=2)])),
+    'embed': dict(r1=P([I('yn', v=8), I('embed', 'r2'), I('yv', v=5), I('embed', 'r2'), I('yn', v=1)]),
+                  r2=P([I('yn', v=2), I('yv', v=3), I('yar', v=4)])),
+    'embedfail': dict(r1=P([I('embed', 'r2'), I('yn', v=8), I('embed', 'r1'), I('yn', v=1)]),
+                      r2=P([I('yn', v=2), I('wait', 'c1'), I('raise')])),
     'three': dict(r1=P([I('next', 'r2', c=1), I('yn', v=8), I('next', 'r3', c=1)]),
                   r2=P([I('next', 'r3'), I('yn', v=2), I('next', 'r1', c=1)]),
                   r3=P([I('yn', v=1), I('stop', 'r1', c=1), I('raise')])),
 }
-QUICK_SETS = ('flow', 'fail', 'nest', 'nestops', 'selfops', 'reentry', 'cond', 'flowvar', 'plain')
+QUICK_SETS = ('flow', 'fail', 'nest', 'nestops', 'selfops', 'reentry', 'cond', 'flowvar', 'plain', 'embed', 'embedfail')
 
 
 def alphabet(prog):
@@ -88,7 +92,7 @@ def exhaustive_cases(names, depth):
     return out
 
 
-BODY_OPS = ('yn', 'yn', 'yn', 'yv', 'ret', 'raise', 'yar', 'alw', 'next', 'next', 'next', 'stop', 'pause', 'resume', 'reset',
+BODY_OPS = ('yn', 'yn', 'yn', 'yv', 'ret', 'raise', 'yar', 'alw', 'next', 'next', 'next', 'embed', 'embed', 'stop', 'pause', 'resume', 'reset',
             'play', 'wait', 'signal', 'unhang', 'settest', 'fget', 'fset')
 
 
@@ -100,7 +104,7 @@ def random_prog(rnd):
         code = []
         for _ in range(rnd.randint(1, 6)):
             op = rnd.choice(BODY_OPS)
-            if plain and op in ('yn', 'yv', 'wait', 'fget'):
+            if plain and op in ('yn', 'yv', 'wait', 'fget', 'embed'):
                 op = 'next'
             if op in ('yn', 'yar', 'alw'):
                 code.append(I(op, v=rnd.choice((0, 1, 2, 4, 8))))
@@ -110,6 +114,8 @@ def random_prog(rnd):
                 code.append(I(op))
             elif op in ('next', 'stop', 'pause', 'resume', 'reset', 'play'):
                 code.append(I(op, rnd.choice(names), c=rnd.choice((0, 1, 1))))
+            elif op == 'embed':
+                code.append(I(op, rnd.choice(names)))
             elif op in ('wait', 'signal', 'unhang'):
                 code.append(I(op, rnd.choice(('c1', 'c1', 'f1')) if op != 'wait' else 'c1'))
             elif op == 'settest':
@@ -184,9 +190,16 @@ def judge(ctx, cases, traces):
             raise MachineryError('trace %d event %d: %s' % (t['id'], at, why))
         rp = dict(kind='case', case=dict(prog=c['prog'], conds=c['conds'], flows=c['flows'], hist=c['hist'][:at]),
                   rejected_at=at, why=why, observed=t['ev'][max(0, at - 2):at])
-        if v2.get(t['id'], 1) is None:
+        if t['id'] in v2 and v2[t['id']] != v:
+            # the multi-entry queue explains the first mismatch: the known NRT defect; a later rejection under
+            # that semantics is a different problem and is reported with its own clause
             ctx.violation(KNOWN_DUP, 'NRT schedules a routine that is already queued a second time', rp)
-            continue
+            if v2[t['id']] is None:
+                continue
+            at, why = v2[t['id']]
+            ev = t['ev'][at - 1]
+            rp = dict(kind='case', case=dict(prog=c['prog'], conds=c['conds'], flows=c['flows'], hist=c['hist'][:at]),
+                      rejected_at=at, why=why, observed=t['ev'][max(0, at - 2):at], qmode='multi')
         ctx.violation('routine:%s:%s' % (why, ev['op']),
                       '%s %s(%s) breaks %s at step %d: result %s, states %s, current thread %s'
                       % ('external', ev['op'], ev['t'], why, at, ev['res'], ev['states'], ev['cur']), rp)
@@ -224,8 +237,11 @@ ACTS = ('ExtNext', 'ExtPlay', 'ExtPause', 'ExtResume', 'ExtStop', 'ExtReset', 'E
 
 
 def run(ctx):
+    import time
     thorough = not ctx.quick
     from concurrent.futures import ThreadPoolExecutor
+    t0 = time.time()
+    ph = ctx.cov['phase_s'] = {}
     # 1. design: the interpreter satisfies the L1 predicates for every body of bounded length
     with ThreadPoolExecutor(4) as ex:
         # vacuity guard: TLC's -coverage cannot be used (its cost model unfolds the recursive interpreter and runs
@@ -239,19 +255,24 @@ def run(ctx):
         for f in fs:
             ctx.expect_ok(f.result(), 'Routine L1')
 
+    ph['model'] = round(time.time() - t0, 1)
     # 2. binding: exhaustive short histories, random long ones, simulated spec behaviours
     rnd = random.Random(ctx.seed)
     if thorough:
         cases = exhaustive_cases(sorted(PROGSETS), 3) + exhaustive_cases(('nestops', 'reentry', 'cond', 'flowvar'), 4)
     else:
-        cases = exhaustive_cases(QUICK_SETS, 2) + exhaustive_cases(('nest', 'selfops', 'reentry', 'cond'), 3)
-    nrand = 6000 if thorough else 600
+        cases = exhaustive_cases(QUICK_SETS, 2) + exhaustive_cases(('reentry', 'cond'), 3)
+    nrand = 6000 if thorough else 500
     cases += [random_case(rnd, rnd.randint(15, 60), clocky=(i % 3 == 0)) for i in range(nrand)]
     for sel in (1, 2, 3, 4):
-        cases += sim_cases(ctx, sel, 1500 if thorough else 150, 14, ctx.seed + sel)
+        cases += sim_cases(ctx, sel, 1500 if thorough else 120, 14, ctx.seed + sel)
+    ph['generate+simulate'] = round(time.time() - t0, 1)
     traces = run_cases(ctx, cases)
+    ph['drivers'] = round(time.time() - t0, 1)
     ctx.cov['evaluations'] += sum(len(t['ev']) for t in traces)
     judge(ctx, cases, traces)
+    ph['validate'] = round(time.time() - t0, 1)
+    print('phases (cumulative s):', ph)
     cl = {}
     for c in cases:
         k = c['cls'].split(':')[0]
